@@ -48,6 +48,9 @@ GenProfiles == <<
 \* the quick tier uses every second prefix
 GenQuick == <<GenProfiles[1], GenProfiles[2], GenProfiles[5], GenProfiles[6], GenProfiles[9], GenProfiles[10], GenProfiles[13]>>
 
+\* the thorough tier extends three of the prefixes by every continuation of length 3
+GenDeep == <<GenProfiles[1], GenProfiles[8], GenProfiles[13]>>
+
 \* simulation: long random histories over larger variable sets
 SimProfiles == <<
   [use |-> {"d1", "d2", "m1", "m2", "m3"},        pre |-> <<NewD1>>],
